@@ -172,6 +172,8 @@ def scenario_of(p):
                 spec.append("op stdin data:" + e2.hexs(o[2]))
             elif k in ("stdin", "stdout", "stderr"):
                 spec.append("op %s %s" % (k, o[1]))
+            elif k in ("setuid", "setgid"):
+                spec.append("op %s %d" % (k, o[1]))
             else:
                 spec.append("op " + k)
             rops.append(o)
@@ -219,6 +221,8 @@ def model_line(s, base):
             ops.append("err:" + redir(o[1], i))
         elif k == "detached":
             ops.append("det")
+        elif k in ("setuid", "setgid"):
+            continue                    # (the identity options are not part of Lib/Builder.v; C06 judges them on the child's report)
         else:
             ops.append(k)
     start = ("shell:" + eu(p["shell"])) if p["shell"] is not None else ("cmd:" + eu(X.STUB))
@@ -569,7 +573,24 @@ def c06_builder(chk, tier, explicit=None):
                 else:
                     ops.append(("env", r.choice(names), r.choice(vals)))
             progs.append({"id": "c06-b%d" % i, "shell": None, "ops": ops, "t1": r.choice(["join", "popen", "capture"]), "t2": "join"})
+        # the identity options through the builder, also on a clone (a copy is an equivalent command)
+        import os as _os
+        if _os.getuid() == 0:
+            for i in range(12 if tier == "quick" else 60):
+                ops = []
+                ids = {}
+                for k in r.choice([["setuid"], ["setgid"], ["setuid", "setgid"], ["setgid", "setuid"]]):
+                    v = r.choice([1000, 1234, 65534])
+                    ops.append((k, v))
+                ops.insert(r.below(len(ops) + 1), ("env", b"V", b"x"))
+                ops.append(("clone",))
+                if r.chance(1, 2):
+                    ops.append(("arg", b"later"))
+                progs.append({"id": "c06-i%d" % i, "shell": None, "ops": ops, "t1": "join", "t2": "join", "ids": True})
     scns = [scenario_of(p) for p in progs]
+    for s in scns:
+        if s["prog"].get("ids"):
+            s["open_wd"] = True          # the child reports after it has given up root
     e2.run_scenarios(scns, "C06b")
     good = [s for s in scns if not s.get("timed_out") and s.get("rc") == 0]
     for s in scns:
@@ -579,6 +600,28 @@ def c06_builder(chk, tier, explicit=None):
     nbad = 0
     for s, ml in zip(good, mlines):
         bad = [b for b in judge(chk, s, ml) if not b.startswith("TIE-ONLY")]
+        if s["prog"].get("ids"):
+            want_u = want_g = None
+            for o in s["prog"]["ops"]:
+                if o[0] == "setuid":
+                    want_u = o[1]
+                elif o[0] == "setgid":
+                    want_g = o[1]
+                elif o[0] == "clone":
+                    break
+            plog = s["logs"].get(s["parent_pid"], [])
+            kids = [int(l.split("=")[1].split()[0]) for l in plog if l.startswith("fork = ") and int(l.split("=")[1].split()[0]) > 0]
+            for which, pid_ in zip(("the command", "its clone"), kids[:2]):
+                rep = e2.parse_report(s["reps"][pid_]) if pid_ in s.get("reps", {}) else None
+                ids = (rep or {}).get("ids", {})
+                wu = want_u if want_u is not None else 0
+                wg = want_g if want_g is not None else 0
+                if rep is None:
+                    bad.append("%s did not report" % which)
+                elif (ids.get("ruid"), ids.get("euid")) != (wu, wu) or (ids.get("rgid"), ids.get("egid")) != (wg, wg):
+                    bad.append("%s runs with uid %s/%s gid %s/%s, requested uid %s gid %s" % (which, ids.get("ruid"), ids.get("euid"), ids.get("rgid"), ids.get("egid"), wu, wg))
+            if len(kids) < 2:
+                bad.append("only %d of the two commands were started" % len(kids))
         if bad:
             nbad += 1
             chk.violation("C06: %s [%s]" % ("; ".join(bad[:2]), describe(s["prog"])), "builder\n" + prog_to_json(s["prog"]))
